@@ -62,6 +62,11 @@ def bfs(model, depth, acc, max_states=None, on_violation=None, merge_every=1):
             obj = model.build(hist)
             out = model.apply(obj, op)
             stats["transitions"] += 1
+            if stats["transitions"] % 400 == 0:
+                # rewritten methods leave ___MAP<n>__ / ___CODE<n>__ names (holding whole tables) in their module globals
+                from . import gen as _gen
+
+                _gen.purge_globals()
             for disc, detail in model.check(hist, op, out, obj):
                 on_violation(hist, op, disc, detail)
             if dup:
